@@ -12,6 +12,8 @@ and after every delivery.  Oracles (hsverif/c16_mon.py):
   lost-write-after-flush   after the final flush() the backing store lacks the latest value of a key
   hard-ttl-exceeded        soft-TTL cache served a value that stopped being current more than hard_ttl before the read
   library-exception        a cache operation raised (page cache under concurrent eviction)
+  lost-page-write          page cache dirty accounting: pages with a completed write_page() since the last quiescent flush
+                           outnumber dirty pages + write-backs since; a quiescent flush() miscounts
 """
 
 from __future__ import annotations
@@ -31,7 +33,8 @@ RULE = (
     "Simulations under EngineProbe caps against: CachedStore x nine eviction policies x write-through/write-back, "
     "capacity 1-3 over 4-6 keys, ops get/put/delete/invalidate/invalidate_all/flush/direct-backing-write+invalidate; "
     "MultiTierCache (L1/L2 CachedStores, each promotion policy, L2 pre-warmed); SoftTTLCache (soft/hard TTL, gaps aimed at "
-    "both TTL edges, direct backing writes, concurrent refreshes); PageCache (concurrent read/write/flush, read-ahead). "
+    "both TTL edges, direct backing writes, concurrent refreshes); PageCache (rounds: mixed clean/dirty residents, then overlapping "
+    "read_page/write_page of one page during the dirty-victim write-back, flush at quiescence; plus free-running read/write/flush, read-ahead). "
     "All written values are unique ids. Non-trivial: cached/multitier - the run had >=1 eviction and >=1 miss-fill (or "
     "promotion) whose interval overlapped a write to the same key; softttl - >=1 stale hit, >=1 access to an expired "
     "entry and >=1 backing-store change while the key was cached; pagecache - >=1 eviction and >=2 loads in flight at once. "
@@ -50,7 +53,7 @@ ASSUMPTIONS = [
     "a stale read / final loss is labelled with the earliest unrefuted explanatory fact on the key; a second defect on the same "
     "key behind an earlier one would carry the earlier label",
 ]
-MUST_OBSERVE = ["reads_checked", "capacity_checks", "policy_drains", "ttl_reads_checked", "final_keys_checked"]
+MUST_OBSERVE = ["reads_checked", "capacity_checks", "policy_drains", "ttl_reads_checked", "final_keys_checked", "dirty_accounting_checks"]
 
 quiet_library_logging()
 
@@ -660,40 +663,109 @@ def run_softttl(case: dict) -> Result:
 # family: pagecache (capacity clause only; the page cache holds no data)
 
 
-def gen_pagecache(rng: random.Random, tier: str) -> dict:
-    cap = rng.randint(1, 4)
-    npages = cap + rng.randint(1, 4)
+def _pc_rounds(rng, cap, npages, rl, wl):
+    """Rounds far apart in time (quiescence in between).  Each round: one client fills the cache sequentially with a
+    mix of clean (read) and dirty (written) residents, LRU victim mostly dirty; then 2-4 clients issue overlapping
+    read_page / write_page of ONE page (offsets inside the disk-read + write-back window) plus a few others; then,
+    mostly, a flush at quiescence.  Every scripted group has its own client with an absolute start time."""
     clients = []
-    for ci in range(rng.randint(1, 4)):
-        ops = []
-        for _ in range(rng.randint(3, 12)):
-            kind = rng.choices(["read", "write", "flush"], [50, 40, 10])[0]
-            ops.append([rng.choice([0.0, 0.0, 0.0001, 0.0002, 0.0005, 0.001]), kind, rng.randrange(npages)])
-        clients.append({"start": rng.choice([0.0, 0.0, 0.0001, 0.0003]), "ops": ops})
+    t = 0.0
+    for _ in range(rng.randint(1, 3)):
+        pages = list(range(npages))
+        rng.shuffle(pages)
+        residents, hot = pages[:cap], pages[cap]
+        setup = []
+        for n, pg in enumerate(residents):
+            dirty = rng.random() < (0.8 if n == 0 else 0.45)
+            setup.append([0.0005, "write" if dirty else "read", pg])
+        clients.append({"start": round(t, 7), "ops": setup})
+        t0 = t + 0.02
+        if rng.random() < 0.25:
+            hot = rng.choice(residents)  # overlap on a resident page as well
+        base_kinds = rng.choice([["read", "write"], ["read", "write"], ["write", "read"], ["write", "write"], ["read", "write", "write"], ["read", "read", "write"]])
+        for kind in base_kinds:
+            off = rng.choice([0.0, rl, rl + rng.random() * wl, rng.random() * (rl + wl), rl + 0.5 * wl, 0.5 * rl])
+            ops = [[0.0, kind, hot]]
+            if rng.random() < 0.3:
+                ops.append([rng.choice([0.0, rl, wl]), rng.choice(["read", "write"]), rng.choice(pages)])
+            clients.append({"start": round(t0 + off, 7), "ops": ops})
+        for _ in range(rng.randint(0, 2)):
+            clients.append({"start": round(t0 + rng.random() * (rl + 2 * wl), 7), "ops": [[0.0, rng.choice(["read", "write", "write", "flush"]), rng.choice(pages)]]})
+        if rng.random() < 0.6:
+            clients.append({"start": round(t + 0.06, 7), "ops": [[0.0, "flush", 0]]})
+        t += 0.1
+    clients.append({"start": round(t, 7), "ops": [[0.0, "flush", 0]]})
+    return clients
+
+
+def gen_pagecache(rng: random.Random, tier: str) -> dict:
+    style = rng.choice(["rounds", "rounds", "free"])
+    read_lat = rng.choice([0.0001, 0.0002, 0.001])
+    write_lat = rng.choice([0.0001, 0.0002, 0.0005, 0.002])
+    if style == "rounds":
+        cap = rng.randint(2, 4) if rng.random() < 0.85 else 1
+        npages = cap + rng.randint(1, 3)
+        clients = _pc_rounds(rng, cap, npages, read_lat, write_lat)
+        readahead = rng.choice([0, 0, 0, 1, 2])
+    else:
+        cap = rng.randint(1, 4)
+        npages = cap + rng.randint(1, 4)
+        clients = []
+        for ci in range(rng.randint(1, 4)):
+            ops = []
+            for _ in range(rng.randint(3, 12)):
+                kind = rng.choices(["read", "write", "flush"], [50, 40, 10])[0]
+                ops.append([rng.choice([0.0, 0.0, 0.0001, 0.0002, 0.0005, 0.001]), kind, rng.randrange(npages)])
+            clients.append({"start": rng.choice([0.0, 0.0, 0.0001, 0.0003]), "ops": ops})
+        clients.append({"start": 0.5, "ops": [[0.0, "flush", 0]]})
+        readahead = rng.choice([0, 0, 1, 2, 3])
     return {
+        "style": style,
         "capacity": cap,
         "npages": npages,
-        "readahead": rng.choice([0, 0, 1, 2, 3]),
-        "read_lat": rng.choice([0.0001, 0.0002, 0.001]),
-        "write_lat": rng.choice([0.0001, 0.0002, 0.0005, 0.002]),
+        "readahead": readahead,
+        "read_lat": read_lat,
+        "write_lat": write_lat,
         "clients": clients,
     }
 
 
 def run_pagecache(case: dict) -> Result:
+    """Capacity clause, exceptions, and - the page cache holds no data - the no-lost-write clause as dirty accounting:
+
+    every page with a completed write_page() since the last quiescent flush is, at any later instant, either still
+    dirty in the cache or was written back at least once since, and different pages need different write-backs, so
+        dirty_pages + (stats.dirty_writebacks - writebacks_at_last_quiescent_flush) >= |pages written since then|
+    must hold after every delivery (double-counted write-backs only weaken it).  A flush() that runs with nothing else
+    in flight must return the number of dirty pages and leave none.
+    """
     from happysimulator.components.infrastructure.page_cache import PageCache
     from happysimulator.core.simulation import Simulation
 
     Entity, Event, Instant = _entities()
     res = Result()
     pc = PageCache("pc", capacity_pages=case["capacity"], readahead_pages=case["readahead"], disk_read_latency_s=case["read_lat"], disk_write_latency_s=case["write_lat"])
-    state = {"inflight_loads": 0, "max_inflight_loads": 0, "viol": set(), "ops": 0, "started": set()}
+    state = {
+        "inflight_loads": 0, "max_inflight_loads": 0, "viol": set(), "ops": 0, "started": set(),
+        "inflight": 0, "op_seq": 0, "written": set(), "wb_base": 0, "oprecs": [], "resets": 0,
+    }
 
     def violate(oracle, shape, detail, witness=None):
         if (oracle, shape) in state["viol"]:
             return
         state["viol"].add((oracle, shape))
         res.add(oracle, "PageCache", shape, detail, witness)
+
+    def overlap_shape():
+        recs = state["oprecs"]
+        now = pc.now.nanoseconds
+        for w in recs:
+            if w["kind"] != "write" or w["end"] is None:
+                continue
+            for r in recs:
+                if r is not w and r["page"] == w["page"] and r["kind"] in ("read", "write") and r["start"] <= w["end"] and (r["end"] if r["end"] is not None else now) >= w["start"]:
+                    return "write-overlaps-" + r["kind"] + "-of-same-page"
+        return "interleaved-clients" if len(state["started"]) > 1 else "single-client"
 
     class PClient(Entity):
         def __init__(self, name, cid, ops):
@@ -705,33 +777,75 @@ def run_pagecache(case: dict) -> Result:
                 yield gap
                 load = kind in ("read", "write")
                 state["started"].add(self.cid)
+                rec = {"c": self.cid, "kind": kind, "page": page if load else None, "start": self.now.nanoseconds, "end": None}
+                state["oprecs"].append(rec)
+                state["op_seq"] += 1
+                seq0 = state["op_seq"]
+                alone = state["inflight"] == 0
+                dirty0, wb0 = pc.dirty_pages, pc.stats.dirty_writebacks
+                state["inflight"] += 1
                 gen = pc.read_page(page) if kind == "read" else pc.write_page(page) if kind == "write" else pc.flush()
-                steps = 0
+                ret = None
                 try:
-                    d = next(gen)
-                    if load:
-                        state["inflight_loads"] += 1
-                        state["max_inflight_loads"] = max(state["max_inflight_loads"], state["inflight_loads"])
                     try:
-                        while True:
-                            steps += 1
-                            sent = yield d
-                            d = gen.send(sent)
-                    finally:
+                        d = next(gen)
                         if load:
-                            state["inflight_loads"] -= 1
-                except StopIteration:
-                    pass
-                except (KeyError, RuntimeError) as exc:
-                    others = state["inflight_loads"] > 0
-                    violate(
-                        "library-exception",
-                        f"{type(exc).__name__}:" + ("interleaved-clients" if len(state["started"]) > 1 else "single-client"),
-                        f"{kind}_page/flush raised {type(exc).__name__}: {exc}",
-                        {"client": self.cid, "op": [gap, kind, page], "t_ns": self.now.nanoseconds, "others_in_flight": others},
-                    )
-                    return
+                            state["inflight_loads"] += 1
+                            state["max_inflight_loads"] = max(state["max_inflight_loads"], state["inflight_loads"])
+                        try:
+                            while True:
+                                sent = yield d
+                                d = gen.send(sent)
+                        finally:
+                            if load:
+                                state["inflight_loads"] -= 1
+                    except StopIteration as stop:
+                        ret = stop.value
+                    except (KeyError, RuntimeError) as exc:
+                        others = state["inflight_loads"] > 0
+                        violate(
+                            "library-exception",
+                            f"{type(exc).__name__}:" + ("interleaved-clients" if len(state["started"]) > 1 else "single-client"),
+                            f"{kind}_page/flush raised {type(exc).__name__}: {exc}",
+                            {"client": self.cid, "op": [gap, kind, page], "t_ns": self.now.nanoseconds, "others_in_flight": others},
+                        )
+                        return
+                finally:
+                    state["inflight"] -= 1
+                rec["end"] = self.now.nanoseconds
                 state["ops"] += 1
+                if kind == "write":
+                    state["written"].add(page)
+                    res.count("page_writes_completed")
+                elif kind == "flush" and alone and state["inflight"] == 0 and state["op_seq"] == seq0:
+                    # nothing else ran between the start and the end of this flush
+                    res.count("quiescent_flushes")
+                    wb1 = pc.stats.dirty_writebacks
+                    if ret != dirty0 or pc.dirty_pages != 0 or wb1 - wb0 != dirty0:
+                        violate(
+                            "lost-page-write",
+                            "quiescent-flush-accounting",
+                            f"flush() alone: {dirty0} dirty pages before, returned {ret}, {pc.dirty_pages} dirty after, write-backs +{wb1 - wb0}",
+                            {"t_ns": self.now.nanoseconds},
+                        )
+                    else:
+                        check_accounting("quiescent flush")
+                        state["written"] = set()
+                        state["wb_base"] = wb1
+                        state["resets"] += 1
+
+    def check_accounting(where):
+        res.count("dirty_accounting_checks")
+        need = len(state["written"])
+        have = pc.dirty_pages + (pc.stats.dirty_writebacks - state["wb_base"])
+        if have < need:
+            violate(
+                "lost-page-write",
+                overlap_shape(),
+                f"{need} pages have a completed write_page() since the last quiescent flush but only {pc.dirty_pages} are dirty and "
+                f"{pc.stats.dirty_writebacks - state['wb_base']} write-backs happened since ({where})",
+                {"t_ns": pc.now.nanoseconds, "written_pages": sorted(state["written"]), "recent_ops": state["oprecs"][-10:]},
+            )
 
     clients = [PClient(f"pclient{ci}", ci, c["ops"]) for ci, c in enumerate(case["clients"])]
     sim = Simulation(entities=[pc, *clients])
@@ -747,6 +861,7 @@ def run_pagecache(case: dict) -> Result:
             )
         if pc.dirty_pages > pc.pages_cached:
             violate("over-capacity", "dirty-exceeds-cached", f"dirty_pages={pc.dirty_pages} > pages_cached={pc.pages_cached}")
+        check_accounting("after delivery")
 
     sim.control.on_event(hook)
     for c, cl in zip(case["clients"], clients):
@@ -758,6 +873,7 @@ def run_pagecache(case: dict) -> Result:
         res.inconclusive = f"engine probe status {status}"
     res.count("page_ops_completed", state["ops"])
     res.count("evictions", pc.stats.evictions)
+    res.count("page_writebacks", pc.stats.dirty_writebacks)
     res.nontrivial = pc.stats.evictions >= 1 and state["max_inflight_loads"] >= 2
     return res
 
